@@ -32,7 +32,65 @@ claim("C18",
       "equality of the k-th iteration with the first.",
       ST + "PAIR (acquire/release post-dominance on MIR CFG) + who-may-call + type inspection", "DESIGN.md §3 C18")
 
-for p in ("C01", "C02", "C03", "C04", "C06", "C07", "C08", "C09", "C10", "C11", "C12", "C13", "C14", "C15", "C17", "C19", "C20"):
+claim("C02",
+      "Decides that the break/continue/return/exit protocol is implemented by every loop executor (role-derived: every loop that runs a "
+      "DoGroupCommand.list) and every sequence executor on every CFG path: return/exit test leaves the loop, levels are decremented on "
+      "every other path, iteration only past !is_break && !is_continue, while/until decrement once on a control-flow condition, "
+      "is_normal_flow between consecutive children, and-or short-circuit skips, function/script boundaries consume return, break/continue "
+      "never leave a function, subshells return an exit code only. A necessary condition for bash-equal traces on all programs.",
+      "Trusted: rustc MIR. Not decided: equality of the executed trace and every intermediate $? with bash; the levels-1 arithmetic.",
+      ST + "sibling protocol cross-check on MIR CFGs (dominance, must-pass-through, loop structure)", "DESIGN.md §3 C02")
+claim("C03",
+      "Decides that the errexit exemption flag reaches exactly the exempt contexts (def-use of the params value passed to every "
+      "Execute::execute on an if/elif/while/until condition vs body; conditional stores in and-or lists; bang), that errexit and the ERR "
+      "trap are applied at exactly one site under the right guards, that command substitution drops errexit on the clone under the "
+      "inherit option, and that the ${…} operator → unset-tolerance table equals the reference.",
+      "Trusted: rustc MIR; the AST field of the receiver identifies the syntactic context. Not decided: that the shell stops at the same "
+      "command as bash for all programs and option toggles; pipefail status arithmetic.",
+      ST + "def-use + dominance on MIR, who-may-call, match-arm table extraction", "DESIGN.md §3 C03")
+claim("C09",
+      "Decides that every MIR write or &mut borrow through ShellVariable.value is behind the readonly test (FIELDW), that no API returns "
+      "&mut ShellValue, that unset and whole-variable replacement consult readonly, that the command scope guard / post_execute pop is "
+      "reached on every SimpleCommand dispatch path, that enter/leave_function pair, and that child environments come from one "
+      "env_clear + iter_exported site.",
+      "Trusted: rustc MIR and field resolution. Not decided: dynamic-scoping visibility, attribute effects (-i -l -u), bash equality. "
+      "Known finding: ShellEnvironment::add shadows readonly variables (local / temporary assignments).",
+      ST + "field-write inventory with dominating-guard check, PAIR, who-may-call", "DESIGN.md §3 C09")
+claim("C10",
+      "Decides that redirections are applied only to frame-owned ExecutionParameters (borrow-chain analysis of every setup_redirect "
+      "call), that the shell's persistent descriptor table has a closed reviewed writer set, that the noclobber branch cannot reach "
+      "truncate and uses create_new under is_file, and that the here-document writer is dropped before Ok.",
+      "Trusted: rustc MIR; Rust ownership (an owned ExecutionParameters dies with the command). Not decided: left-to-right descriptor "
+      "semantics, file contents, here-document tokenizer behaviour.",
+      ST + "borrow-root ownership analysis, who-may-call, branch-exclusive reachability", "DESIGN.md §3 C10")
+claim("C11",
+      "Decides start-all-before-wait (no wait/poll/join in the spawn loop; spawn dominates wait), drain-before-join and writer-moved for "
+      "command substitution, one status per stage, and that every inline call of a run-to-completion interpreter from the stage "
+      "dispatch functions is under ShellForCommand::ParentShell. The last rule reports the two known deadlock findings.",
+      "Trusted: rustc MIR; a closure passed to tokio::spawn/spawn_blocking runs concurrently, any other call inline. Not decided: byte "
+      "conservation, SIGPIPE, liveness under sizes and schedules.",
+      ST + "ORDER (dominance) + call-graph with spawn edges + enum-discriminant guards", "DESIGN.md §3 C11")
+claim("C12",
+      "Decides that Shell::clone copies every field from self (reviewed exceptions), that no Shell field shares interior-mutable state "
+      "with its clone through Arc/Rc (reviewed exception: key bindings), that every process-global mutator API call is in a pre_exec "
+      "callback, behind !is_subshell() or reviewed, and that every subshell-like context runs its body on the clone.",
+      "Trusted: rustc MIR and fully-qualified type strings; external types are opaque except generic arguments. Known findings: umask, "
+      "ulimit. Not decided: that every piece of semantic state lives in Shell.",
+      ST + "aggregate-field provenance, type walk, who-may-call with dominating guards, forward taint", "DESIGN.md §3 C12")
+claim("C17",
+      "Decides that every tokio::spawn in brush_core is registered as a job on all paths / joined in place / a reviewed detached spawn, "
+      "that wait→wait_all→Job::wait→JobTask::wait is a chain of awaits inside loops whose only exit is exhaustion (no error exit leaves "
+      "early, awaited tasks are always removed, no link polls), and that job ids are not derived from the table length.",
+      "Trusted: rustc MIR; tokio JoinHandle semantics. Not decided: happens-before of job effects, output ordering, schedules.",
+      ST + "forward taint + PAIR + loop-exit analysis + def-use", "DESIGN.md §3 C17")
+claim("C20",
+      "Decides that an item written by History::flush is marked clean on every path back to the loop head, that the skip edge depends on "
+      "the dirty flag, that imported items are constructed clean and new ones dirty, that the #epoch line precedes its command in the "
+      "same iteration under write_timestamps, and the reviewed (append, unsaved-only) modes of all flush callers.",
+      "Trusted: rustc MIR; format literals recovered from macro call-site snippets. Not decided: file contents over all interleavings.",
+      ST + "must-pass-through on MIR CFG, aggregate-constant inspection, who-may-call", "DESIGN.md §3 C20")
+
+for p in ("C01", "C04", "C06", "C07", "C08", "C13", "C14", "C15", "C19"):
     na(p, "rules for this property are designed (DESIGN.md §3) but not yet implemented in this revision; not claimed until they run")
 na("C05", "argument-list equality with bash over words x IFS x directory trees is a runtime quantity; no structural clause that is a "
           "necessary condition and stable under behaviour-preserving rewrites was found beyond those decided under C04 (DESIGN.md §3 C05)")
